@@ -314,6 +314,9 @@ class RiscvParser(Parser):
             ^ (_pattern_label + _D_COL)("label_declaration")
         )
     ) + pp.StringEnd().suppress()
+    # pyparsing replaces tabs by spaces before parsing unless told otherwise; a tab inside a
+    # .string literal has to stay a tab (between tokens tabs are skipped as white space anyway)
+    _pattern_line.parse_with_tabs()
 
     def parse(self, program: str, state: RiscvArchitecturalState, **kwargs) -> None:
         """Parses the text format assembly program and loads it into the architectural state.
